@@ -13,11 +13,37 @@ LEVEL_TEXT = ('Kill points cannot be enumerated statically; decided instead are 
               'write of a case and implies its result file, a failed case writes no marker, only marked cases are skipped, a worker result is built from the worker\'s own arguments, '
               'journal writer and reader agree (including tuple-valued must-include), and the returned list is uniform across fresh and restarted cases.')
 LEVEL_NOTE = 'Trusted: ast front-end, CFG builder. Not decided: atomicity of a single np.savez / file write under kill -9 (OS-level), behaviour of pathos/multiprocessing pools.'
-EXPLANATION = 'R18.1 marker last; R18.2 failed => no marker, skip => marker; R18.3 own identity; R18.4 journal agreement; R18.5 uniform results; R18.6 skip set consistency.'
+EXPLANATION = 'R18.1 marker last; R18.2 failed => no marker, skip => marker; R18.3 own identity; R18.4 journal agreement; R18.5 uniform results; R18.6 skip set consistency; R18.7 results read only under the marker.'
 
 
 def const_strings(node):
     return [n.value for n in ast.walk(node) if isinstance(n, ast.Constant) and isinstance(n.value, str)]
+
+
+def path_strings(expr, scopes, depth=4):
+    """String constants a path expression is built from, following local / enclosing-scope names through their assignments
+    (`results_path = os.path.join(d, 'mp_results.npz')` ... `np.savez(results_path, ...)`)."""
+    out = list(const_strings(expr))
+    if depth <= 0:
+        return out
+    for n in ast.walk(expr):
+        if isinstance(n, ast.Name):
+            for sc in scopes:
+                for a in ast.walk(sc):
+                    if isinstance(a, ast.Assign) and any(isinstance(t, ast.Name) and t.id == n.id for t in a.targets):
+                        out += path_strings(a.value, scopes, depth - 1)
+                    elif isinstance(a, ast.AnnAssign) and isinstance(a.target, ast.Name) and a.target.id == n.id and a.value is not None:
+                        out += path_strings(a.value, scopes, depth - 1)
+    return out
+
+
+def enclosing_function(root, node):
+    best = root
+    for fn in ast.walk(root):
+        if isinstance(fn, (ast.FunctionDef, ast.Lambda)) and fn is not root and any(x is node for x in ast.walk(fn)):
+            if sum(1 for _ in ast.walk(fn)) < sum(1 for _ in ast.walk(best)):
+                best = fn
+    return best
 
 
 def run(chk):
@@ -81,8 +107,8 @@ def run(chk):
             cs = [c for c in const_strings(a.value) if '.' in c]
             if cs: marker = cs[0]
     for n in ast.walk(f):
-        if isinstance(n, ast.Call) and ast.unparse(n.func) in ('np.load', 'numpy.load'):
-            cs = [c for c in const_strings(n) if '.' in c]
+        if isinstance(n, ast.Call) and ast.unparse(n.func) in ('np.load', 'numpy.load') and enclosing_function(f, n) is f:
+            cs = [c for c in path_strings(n, [f]) if '.' in c]
             if cs: result_file = cs[0]
     if not marker or not result_file:
         raise AnalysisError(f'could not identify marker/result file names from the restart reader (marker={marker}, result={result_file})')
@@ -108,7 +134,7 @@ def run(chk):
             if st is None: continue
             hdr = header_expr(st)
             for c in ast.walk(hdr):
-                if isinstance(c, ast.Call) and name in const_strings(c):
+                if isinstance(c, ast.Call) and name in path_strings(c, [worker, f]):
                     fn_ = ast.unparse(c.func)
                     if fn_ == 'open':
                         mode = c.args[1].value if len(c.args) > 1 and isinstance(c.args[1], ast.Constant) else 'r'
@@ -153,6 +179,52 @@ def run(chk):
         chk.ob('R18.2', 'a case whose study function raised never writes the success marker', bad is None,
                f'path from the except handler to the marker write: {wcfg.describe_path(bad, m) if bad else ""}', m.where(WG.nodes[h]['stmt']), method='flag-sensitive CFG reachability')
 
+    # ---- R18.7 the result file is only ever read for a case whose success marker is known to exist.  np.savez is not atomic: a kill inside it
+    #      leaves a truncated result file and no marker, and such a case must be recomputed, never reloaded.
+    n_reads = 0
+    for n in ast.walk(f):
+        if not isinstance(n, ast.Call):
+            continue
+        fn_ = ast.unparse(n.func)
+        is_read = fn_.split('.')[-1] in ('load', 'loadtxt', 'genfromtxt') or \
+            (fn_ == 'open' and (len(n.args) < 2 or (isinstance(n.args[1], ast.Constant) and str(n.args[1].value).startswith('r'))))
+        if not is_read:
+            continue
+        encl = enclosing_function(f, n)
+        scopes = [encl, worker, f] if encl is not f else [f]
+        if result_file not in path_strings(n, scopes):
+            continue
+        n_reads += 1
+        st = stmt_of(encl, n)
+        ok = False; why = ''
+        if encl is f:
+            for l in ast.walk(f):
+                if isinstance(l, ast.For) and any(x is n for x in ast.walk(l)) and any(isinstance(x, ast.Name) and x.id == 'cases_to_skip' for x in ast.walk(l.iter)):
+                    ok = True
+            why = 'read in the driver outside the loop over the skip list (whose members are marked cases by R18.2)'
+        if not ok and isinstance(encl, ast.FunctionDef):
+            ecfg = cfg if encl is f else CFG(encl)
+            EG = ecfg.G.copy()
+            tgt = ecfg.node_of.get(id(st))
+            for gn, dct in list(EG.nodes(data=True)):
+                gst = dct.get('stmt')
+                if isinstance(gst, ast.If):
+                    for c in ast.walk(gst.test):
+                        if isinstance(c, ast.Call) and ast.unparse(c.func).split('.')[-1] in ('isfile', 'exists') and marker in path_strings(c, scopes):
+                            pos = 'not' not in ast.unparse(gst.test).split(ast.unparse(c.func))[0]
+                            for (u, v, d2) in list(EG.out_edges(gn, data=True)):
+                                if d2['kind'] == ('false' if pos else 'true'):
+                                    pass
+                                else:
+                                    EG.remove_edge(u, v)
+            # after removing every marker-present edge the read must be unreachable
+            reach = tgt is not None and nx.has_path(EG, ENTRY, tgt)
+            # (only meaningful if at least one marker test exists)
+            ok = not reach
+            why = f'{result_file} is read in {getattr(encl, "name", "<lambda>")} on a path that never established that {marker} exists: a case killed inside the (non-atomic) result write would be reloaded from a truncated file instead of recomputed'
+        chk.ob('R18.7', f'{result_file} is read only for cases whose {marker} exists', ok, why, m.where(st), key=f'R18.7|{getattr(encl, "name", "?")}|{ast.unparse(n)[:50]}', method='CFG edge-removal reachability / skip-list loop')
+    chk.floor('R18.7', 1)
+
     # ---- R18.3 own identity
     params = {a.arg for a in worker.args.args + worker.args.kwonlyargs} | ({worker.args.vararg.arg} if worker.args.vararg else set()) | ({worker.args.kwarg.arg} if worker.args.kwarg else set())
     local_defs = set()
@@ -167,7 +239,7 @@ def run(chk):
             outer_assigned[n.id] = outer_assigned.get(n.id, 0) + 1
     nret = 0
     for r in ast.walk(worker):
-        if isinstance(r, ast.Return) and r.value is not None:
+        if isinstance(r, ast.Return) and r.value is not None and enclosing_function(worker, r) is worker:
             nret += 1
             free = sorted({n.id for n in ast.walk(r.value) if isinstance(n, ast.Name) and isinstance(n.ctx, ast.Load) and n.id not in params and n.id not in local_defs
                            and outer_assigned.get(n.id, 0) >= 1 and not is_global_like(n.id, m)})
